@@ -78,7 +78,7 @@ theorem edToMontgomery_eq (e : EPt) (hZ : (e.Z : Fp) ≠ 0) :
   show feToBytes (fmul (fadd e.Z e.Y) (finv (fsub e.Z e.Y))) = _
   refine congrArg feToBytes ?_
   apply eq_of_cast_eq (fmul_lt _ _) (fmul_lt _ _)
-  simp only [Spec.toMontgomery, EPt.toAffine, cast_fmul, cast_fadd, cast_fsub, cast_finv, Nat.cast_one]
+  simp only [EPt.toAffine, cast_fmul, cast_fadd, cast_fsub, cast_finv, Nat.cast_one]
   exact mont_u_eq hZ
 
 /-- value of `to_montgomery` in the field, in terms of the represented group element: `u = (1+y)/(1−y)` -/
